@@ -1060,13 +1060,20 @@ def push_thread_bindings(m: IPersistentMap[Var, Any]) -> None:
     """Push thread local bindings for the Var keys in m using the values."""
     bindings = set()
 
-    for var, val in m.items():
-        if not var.dynamic:
-            raise RuntimeException(
-                "cannot set thread-local bindings for non-dynamic Var"
-            )
-        var.push_bindings(val)
-        bindings.add(var)
+    try:
+        for var, val in m.items():
+            if not var.dynamic:
+                raise RuntimeException(
+                    "cannot set thread-local bindings for non-dynamic Var"
+                )
+            var.push_bindings(val)
+            bindings.add(var)
+    except BaseException:
+        # No frame has been recorded yet, so `pop_thread_bindings` will never undo
+        # the bindings pushed so far: undo them here before propagating the error.
+        for var in bindings:
+            var.pop_bindings()
+        raise
 
     _THREAD_BINDINGS.push_bindings(lset.set(bindings))
 
